@@ -9,6 +9,7 @@
 
 #include <cstddef>
 #include <string>
+#include <utility>
 #include <vector>
 
 #include <jsoncons/config/jsoncons_config.hpp>
@@ -63,6 +64,8 @@ private:
     std::vector<const schema_validator<Json>*> dynamic_scope_;
     jsonpointer::json_pointer eval_path_;
     evaluation_flags flags_;
+    // the references being followed on the way to this context, each with the instance it was applied to
+    std::vector<std::pair<const void*,const void*>> active_refs_;
 public:
     eval_context()
         : flags_{}
@@ -71,19 +74,19 @@ public:
 
     eval_context(const eval_context& other)
         : dynamic_scope_ { other.dynamic_scope_}, eval_path_{other.eval_path_},
-          flags_(other.flags_)
+          flags_(other.flags_), active_refs_(other.active_refs_)
     {
     }
 
     eval_context(eval_context&& other) noexcept
         : dynamic_scope_{std::move(other.dynamic_scope_)},eval_path_{std::move(other.eval_path_)},
-          flags_(other.flags_)
+          flags_(other.flags_), active_refs_(std::move(other.active_refs_))
     {
     }
 
     eval_context(const eval_context& parent, const schema_validator<Json> *validator)
         : dynamic_scope_ { parent.dynamic_scope_ }, eval_path_{ parent.eval_path_ },
-          flags_(parent.flags_)
+          flags_(parent.flags_), active_refs_(parent.active_refs_)
     {
         if (validator->id() || dynamic_scope_.empty())
         {
@@ -94,7 +97,7 @@ public:
     eval_context(const eval_context& parent, const schema_validator<Json> *validator,
         evaluation_flags flags)
         : dynamic_scope_ { parent.dynamic_scope_ }, eval_path_{ parent.eval_path_ },
-          flags_(flags)
+          flags_(flags), active_refs_(parent.active_refs_)
     {
         if (validator->id() || dynamic_scope_.empty())
         {
@@ -104,7 +107,7 @@ public:
 
     eval_context(const eval_context& parent, jsoncons::string_view name)
         : dynamic_scope_{parent.dynamic_scope_}, eval_path_(parent.eval_path() / name),
-          flags_(parent.flags_)
+          flags_(parent.flags_), active_refs_(parent.active_refs_)
           
     {
     }
@@ -112,21 +115,42 @@ public:
     eval_context(const eval_context& parent, jsoncons::string_view name,
         evaluation_flags flags)
         : dynamic_scope_{parent.dynamic_scope_}, eval_path_(parent.eval_path() / name),
-          flags_(flags)
+          flags_(flags), active_refs_(parent.active_refs_)
     {
     }
 
     eval_context(const eval_context& parent, std::size_t index)
         : dynamic_scope_{parent.dynamic_scope_}, eval_path_(parent.eval_path() / index),
-          flags_(parent.flags_)
+          flags_(parent.flags_), active_refs_(parent.active_refs_)
     {
     }
 
     eval_context(const eval_context& parent, std::size_t index,
         evaluation_flags flags)
         : dynamic_scope_{parent.dynamic_scope_}, eval_path_(parent.eval_path() / index),
-          flags_(flags)
+          flags_(flags), active_refs_(parent.active_refs_)
     {
+    }
+
+    // Enters a reference keyword applied to an instance
+    eval_context(const eval_context& parent, jsoncons::string_view name, const void* ref, const void* instance)
+        : dynamic_scope_{parent.dynamic_scope_}, eval_path_(parent.eval_path() / name),
+          flags_(parent.flags_), active_refs_(parent.active_refs_)
+    {
+        active_refs_.emplace_back(ref, instance);
+    }
+
+    // True if this reference is already being followed for this instance: following it again would never end
+    bool is_following(const void* ref, const void* instance) const
+    {
+        for (const auto& item : active_refs_)
+        {
+            if (item.first == ref && item.second == instance)
+            {
+                return true;
+            }
+        }
+        return false;
     }
 
     const std::vector<const schema_validator<Json>*>& dynamic_scope() const
